@@ -37,7 +37,19 @@ def impl_resize(arr, newshp, off, mode, c, direction):
         return 'IOtherErr'
 
 
+def measured_strict():
+    """Does resize_array validate the offset range (proposed fix for finding
+    offset-out-of-range-accepted)?  Measured on the finding's own replay input."""
+    from odl.util.numerics import resize_array
+    try:
+        resize_array([5], (4,), offset=-3)
+        return False
+    except ValueError:
+        return True
+
+
 def cases_1d(rng, tier):
+    strict = measured_strict()
     cs = C.CaseSet('resize1d', ['C16.Syntax', 'Gen.Padding', 'C16.Model', 'C16.Corr'], 'check1', 'case1')
     nmax, mmax = (5, 7) if tier == 'quick' else (7, 11)
     for mode, d in itertools.product(MODES, DIRS):
@@ -53,9 +65,9 @@ def cases_1d(rng, tier):
                     c = rng.choice([0, 0, 3])
                 cast = bool(np.can_cast(c, arr.dtype))
                 out = impl_resize(arr, (m,), off, mode, c, d)
-                term = ('{| k_m := %s; k_d := %s; k_c := %s; k_cast := %s; k_arr := %s; k_nout := %s; '
+                term = ('{| k_strict := %s; k_m := %s; k_d := %s; k_c := %s; k_cast := %s; k_arr := %s; k_nout := %s; '
                         'k_off := %s; k_out := %s |}'
-                        % (T.PMODE[mode], DIRK[d], C.q(c), C.b(cast), C.qs(arr.tolist()), C.nat(m), C.z(off), out))
+                        % (C.b(strict), T.PMODE[mode], DIRK[d], C.q(c), C.b(cast), C.qs(arr.tolist()), C.nat(m), C.z(off), out))
                 key = ((mode, d, n, m, off, c, dt.__name__, tuple(arr.tolist()))
                        if (arr.any() or out.startswith('IValueErr')) else None)
                 cs.add(term, {'mode': mode, 'direction': d, 'arr': arr.tolist(), 'dtype': dt.__name__,
@@ -68,6 +80,7 @@ def _legal_off(rng, n, m):
 
 
 def cases_nd(rng, tier):
+    strict = measured_strict()
     cs = C.CaseSet('resizeNd', ['C16.Syntax', 'Gen.Padding', 'C16.Model', 'C16.ModelNd', 'C16.Corr'],
                    'checkN', 'caseN')
     nper = 12 if tier == 'quick' else 60
@@ -106,9 +119,9 @@ def cases_nd(rng, tier):
                 c = 0
             cast = bool(np.can_cast(c, arr.dtype))
             out = impl_resize(arr, tuple(osh), offs, mode, c, d)
-            term = ('{| n_m := %s; n_d := %s; n_c := %s; n_cast := %s; n_ishape := %s%%nat; n_arr := %s; '
+            term = ('{| n_strict := %s; n_m := %s; n_d := %s; n_c := %s; n_cast := %s; n_ishape := %s%%nat; n_arr := %s; '
                     'n_oshape := %s%%nat; n_offs := %s%%Z; n_out := %s |}'
-                    % (T.PMODE[mode], DIRK[d], C.q(c), C.b(cast), C.nats(ish), C.qs(arr.ravel().tolist()),
+                    % (C.b(strict), T.PMODE[mode], DIRK[d], C.q(c), C.b(cast), C.nats(ish), C.qs(arr.ravel().tolist()),
                        C.nats(osh), C.zs(offs), out))
             key = ((mode, d, tuple(ish), tuple(osh), tuple(offs), c, dt.__name__, tuple(arr.ravel().tolist()))
                    if (arr.any() or out.startswith('IValueErr')) else None)
@@ -131,6 +144,18 @@ def measured_fixed():
     return abs(lo - 0.2) < 1e-9
 
 
+def measured_adjguard():
+    """Does ResizingOperator.adjoint refuse non-uniformly weighted spaces (proposed fix for
+    finding adjoint-nodes-on-bdry)?"""
+    import odl
+    X = odl.uniform_discr(0, 1, 5, nodes_on_bdry=True)
+    try:
+        odl.ResizingOperator(X, ran_shp=(9,), offset=1).adjoint
+        return False
+    except NotImplementedError:
+        return True
+
+
 def _out(f):
     try:
         return 'IOk %s' % C.qs(np.asarray(f()).ravel().tolist())
@@ -145,6 +170,7 @@ def cases_op(rng, tier):
     cs = C.CaseSet('resizing_op', ['C16.Syntax', 'Gen.Padding', 'C16.Model', 'C16.ModelNd', 'C16.ModelOp',
                                    'C16.Corr'], 'checkOp', 'caseOp')
     fixed = measured_fixed()
+    adjguard = measured_adjguard()
     nper = 10 if tier == 'quick' else 50
     for mode in MODES:
         for k in range(nper):
@@ -187,10 +213,11 @@ def cases_op(rng, tier):
             R = op.range
             doms = C.lst(dom, lambda d: '(%s, %s, %s%%Z, (%s, %s))' % (C.q(d[0]), C.q(d[1]), C.z(d[2]),
                                                                     C.b(d[3][0]), C.b(d[3][1])))
-            term = ('{| o_fixed := %s; o_m := %s; o_c := %s; o_dom := %s; o_nnew := %s%%Z; o_off := %s; '
+            term = ('{| o_fixed := %s; o_adjguard := %s; o_m := %s; o_c := %s; o_dom := %s; o_nnew := %s%%Z; o_off := %s; '
                     'o_flags := %s; o_rmin := %s; o_rmax := %s; o_rcs := %s; o_offset := %s%%Z; '
                     'o_x := %s; o_fx := %s; o_y := %s; o_ay := %s; o_inv := %s |}'
-                    % (C.b(fixed), T.PMODE[mode], C.q(c), doms, C.zs(nnew),
+                    % (C.b(fixed), C.b(adjguard and not (op.domain.is_uniformly_weighted and op.range.is_uniformly_weighted)),
+                       T.PMODE[mode], C.q(c), doms, C.zs(nnew),
                        C.lst(offs, lambda o: 'None' if o is None else '(Some %s%%Z)' % C.z(o)),
                        C.lst(kw_flags, lambda f: '(%s, %s)' % (C.b(f[0]), C.b(f[1]))),
                        C.qs(R.min_pt.tolist()), C.qs(R.max_pt.tolist()), C.qs(R.cell_sides.tolist()),
@@ -431,8 +458,10 @@ def probes(rng, tier):
                       "op=odl.ResizingOperator(X,Y,pad_mode=%r)\n" % (lo, hi_, ish, tuple(osh), offs, osh, mode))
                 key = 'adjoint-weighting-mismatch'
             rp = pre + sp + ("x=X.element(np.array(%r,dtype=float).reshape(%r)); y=op.range.element(np.array(%r,dtype=float).reshape(%r))\n"
-                             "observed=float(op(x).inner(y)); expected=float(x.inner(op.adjoint(y)))\n"
-                             "ok=bool(abs(observed-expected)<=1e-9*(1+abs(expected)))\n" % (vx, ish, vy, osh))
+                             "try:\n    adj=op.adjoint\nexcept NotImplementedError:\n    adj=None   # no adjoint offered: nothing to violate\n"
+                             "if adj is None:\n    ok=True\nelse:\n"
+                             "    observed=float(op(x).inner(y)); expected=float(x.inner(adj(y)))\n"
+                             "    ok=bool(abs(observed-expected)<=1e-9*(1+abs(expected)))\n" % (vx, ish, vy, osh))
             ok, _ = _run(rp)
             out.append(C.Probe(ok, key, '<op x, y>_range == <x, op.adjoint y>_domain (%s, %s %s->%s)' % (variant, mode, ish, osh), rp))
 
